@@ -70,7 +70,7 @@ func verifH_C41_pipe_unary() {
 // Pipe: streams.
 //
 //verif:use ipc pipe handler
-//verif:bound one stream call through serveOne: producer, producer with header, exchange or dynamic method; init succeeds, fails, panics, returns nil or a non-state, parameters fail to bind, or the header fails to serialise; the state plays 0..2 (thorough: 3) turns each ANY of 8 outcomes; the client sends 0..3 inputs and may cancel at any of them (zero-row or data-shaped cancel)
+//verif:bound one stream call through serveOne: producer, producer with header, exchange or dynamic method; init succeeds, fails, panics, returns nil or a non-state, parameters fail to bind, or the header fails to serialise; the state plays 0..2 (thorough: 3) turns each ANY of 12 outcomes (emit, log+emit, no emit, two emits, finish, error, panic, emit+finish, log without emit, log+error, emit+error, emit+panic); the client sends 0..3 inputs and may cancel at any of them (zero-row or data-shaped cancel)
 func verifH_C41_pipe_stream() {
 	verifResetIPC()
 	verifResetHandler()
@@ -84,7 +84,7 @@ func verifH_C41_pipe_stream() {
 	}
 	var turns []int
 	for i, n := 0, verifChoice("turns", maxTurns+1); i < n; i++ {
-		turns = append(turns, verifChoice("turn", verifNTurnKinds))
+		turns = append(turns, verifChoice("turn", verifNTurnKindsExt))
 	}
 	var state interface{}
 	if method == "x" {
@@ -131,7 +131,7 @@ func verifC41Request(method, suffix string) *http.Request {
 // HTTP: unary, stream init and continuations.
 //
 //verif:use ipc pipe handler httpx tokens
-//verif:bound unary call (6 handler/binding/serialisation outcomes, 0..1 logs), or a stream (producer / producer with header / exchange; init outcomes as on the pipe; 0..2 turns of ANY of 8 outcomes; producer batch limit 0..2; response-byte cap none or 1 byte; up to 3 continuations / inputs, the last one optionally a cancel) through handleUnary, handleStreamInit and handleStreamExchange; ideal token algebra with the state carried by reference
+//verif:bound unary call (6 handler/binding/serialisation outcomes, 0..1 logs), or a stream (producer / producer with header / exchange; init outcomes as on the pipe; 0..2 turns of ANY of those 12 outcomes; producer batch limit 0..2; response-byte cap none or 1 byte; up to 3 continuations / inputs, the last one optionally a cancel) through handleUnary, handleStreamInit and handleStreamExchange; ideal token algebra with the state carried by reference
 func verifH_C41_http() {
 	verifResetIPC()
 	verifResetHandler()
@@ -170,7 +170,7 @@ func verifH_C41_http() {
 	verifParamsFail, verifHeaderFail = init == 5, init == 6
 	var turns []int
 	for i, n := 0, verifChoice("turns", 3); i < n; i++ {
-		turns = append(turns, verifChoice("turn", verifNTurnKinds))
+		turns = append(turns, verifChoice("turn", verifNTurnKindsExt))
 	}
 	var state interface{}
 	if method == "x" {
